@@ -19,10 +19,19 @@ SInt.bit_length = lambda s: 200
 
 
 def _to_bytes(s, length=1, byteorder="big", *, signed=False):
-    uid = getattr(s, "uid", None)
-    if uid is None:
-        s.uid = uid = next(_uid)
-    return b"\xfeSYM" + uid.to_bytes(8, "little") + b"\xfe"
+    # deterministic per *term*: identical terms are the same constant; replays see identical structural hashes
+    import hashlib
+    return b"\xfeSYM" + hashlib.blake2b(s.t.sexpr().encode(), digest_size=12).digest() + b"\xfe"
+
+
+def reset_caches():
+    """evaluation caches keyed by AST hash are path-dependent once constants are symbolic: clear per run"""
+    import sys
+    asim = sys.modules['claripy.algorithm.simplify']; ite = sys.modules['claripy.algorithm.ite_relocation']
+    for b in claripy.backends.all_backends:
+        b.downsize()
+    asim.simplification_cache.clear(); ite.excavated_cache.clear(); ite.burrowed_cache.clear()
+    KNOWN.clear()
 
 
 SInt.to_bytes = _to_bytes
@@ -50,7 +59,10 @@ def BVV(value, size=None, **kwargs):
                 return node
         elif kv == value:
             return node
-    node = _orig_BVV(value, size)
+    if isinstance(value, SInt):
+        node = cbv.BV("BVV", (value, size), length=size)   # bypass the (value,size) memo: identity handled above
+    else:
+        node = _orig_BVV(value, size)
     lst.append((value, node))
     return node
 
@@ -85,7 +97,7 @@ def stub_z3_simplify():
     def simplify(self, expr):
         for leaf in expr.leaf_asts():
             if leaf.op == "BVV" and isinstance(leaf.args[0], SInt):
-                raise BackendError("symbolic constant cannot cross Z3 simplify (harness stub)")
+                return expr   # identity is a valid simplification; constants cannot cross libz3
         return orig(self, expr)
 
     cls.simplify = simplify
